@@ -29,7 +29,7 @@ type Plan struct {
 }
 
 func wAll() map[string]int {
-	return map[string]int{OpAdd: 10, OpAddMulti: 2, OpCompactAll: 2, OpExpire: 1, OpAutoCompact: 2, OpCompactRange: 2, OpClean: 1, OpRead: 2, OpReopen: 1, OpUpToDate: 1, OpClose: 0, OpSetAuto: 1}
+	return map[string]int{OpAdd: 10, OpAddMulti: 2, OpCompactAll: 2, OpExpire: 1, OpAutoCompact: 2, OpCompactRange: 2, OpClean: 1, OpRead: 2, OpReopen: 1, OpUpToDate: 1, OpClose: 0, OpSetAuto: 1, OpBegin: 1, OpCommit: 1, OpAbort: 1}
 }
 
 func baseProfile() *Profile {
@@ -160,7 +160,7 @@ func Plans() map[string]*Plan {
 	// ---- C08
 	{
 		p := baseProfile()
-		p.W = map[string]int{OpAdd: 6, OpAddMulti: 2, OpCompactAll: 4, OpCompactRange: 4, OpAutoCompact: 3, OpExpire: 1, OpClean: 2}
+		p.W = map[string]int{OpAdd: 6, OpAddMulti: 2, OpCompactAll: 4, OpCompactRange: 4, OpAutoCompact: 3, OpExpire: 1, OpClean: 2, OpBegin: 1, OpCommit: 1, OpAbort: 1}
 		p.InitMax = 6
 		ps["C08"] = &Plan{Prop: "C08", Level: "exploration",
 			Parts: []Part{
@@ -175,7 +175,7 @@ func Plans() map[string]*Plan {
 	// ---- C09
 	{
 		p := baseProfile()
-		p.W = map[string]int{OpAdd: 10, OpAddMulti: 2, OpCompactAll: 2, OpAutoCompact: 2, OpCompactRange: 2, OpClean: 1, OpExpire: 1, OpReopen: 1}
+		p.W = map[string]int{OpAdd: 10, OpAddMulti: 2, OpCompactAll: 2, OpAutoCompact: 2, OpCompactRange: 2, OpClean: 1, OpExpire: 1, OpReopen: 1, OpBegin: 2, OpCommit: 1, OpAbort: 2}
 		p.MinOps, p.MaxOps = 6, 30
 		p.HandlesPerTask = 4
 		p.AutoP = 0.4
@@ -217,7 +217,7 @@ func Plans() map[string]*Plan {
 		p.RefsPerTxn = [2]int{1, 8}
 		p.PopularP = 0.3
 		ps["C11"] = &Plan{Prop: "C11", Level: "exploration",
-			Parts: []Part{turnPart("C11", "S-TURN/refsfor", 5000, 500000, p, RunOpts{DeepReads: true, DeepRefsFor: true})},
+			Parts: []Part{turnPart("C11", "S-TURN/refsfor", 4000, 400000, p, RunOpts{DeepReads: true, DeepRefsFor: true})},
 			Rule:  "S-TURN histories with shared object ids, re-pointed and deleted refs, peeled values, object index on/off, small blocks, popular-oid runs; RefsFor on stack view, raw merged sub-ranges and single tables vs filter of the full scan; non-trivial = a table with an object index was queried and a query had hits; distinct = distinct event hash",
 			Nontrivial: func(r *RunResult) bool {
 				return r.Probes["table-with-obj-index"] > 0 && probeAny(r, "refsfor-hit-table", "refsfor-hit-stack-view")
@@ -255,11 +255,11 @@ func Plans() map[string]*Plan {
 	{
 		p := baseProfile()
 		p.BadTxn = 0.2
-		p.W = map[string]int{OpAdd: 8, OpAddMulti: 3, OpCompactAll: 3, OpCompactRange: 3, OpAutoCompact: 2, OpExpire: 1, OpClean: 3, OpReopen: 1, OpClose: 1}
+		p.W = map[string]int{OpAdd: 8, OpAddMulti: 3, OpCompactAll: 3, OpCompactRange: 3, OpAutoCompact: 2, OpExpire: 1, OpClean: 3, OpReopen: 1, OpClose: 1, OpBegin: 2, OpCommit: 1, OpAbort: 1}
 		p.InitMax = 4
 		q := baseProfile()
 		q.BadTxn = 0.2
-		q.W = map[string]int{OpAdd: 8, OpAddMulti: 3, OpCompactAll: 2, OpClean: 4, OpReopen: 2, OpCompactRange: 2}
+		q.W = map[string]int{OpAdd: 8, OpAddMulti: 3, OpCompactAll: 2, OpClean: 4, OpReopen: 2, OpCompactRange: 2, OpBegin: 2, OpCommit: 1, OpAbort: 2}
 		q.MinOps, q.MaxOps = 3, 16
 		ps["C16"] = &Plan{Prop: "C16", Level: "exploration",
 			Parts: []Part{
@@ -303,9 +303,9 @@ func Plans() map[string]*Plan {
 		ps["C19"] = &Plan{Prop: "C19", Level: "exploration",
 			Parts: []Part{
 				{Name: "S-SHARE", Quick: 12000, Thorough: 1000000, Gen: func(seed uint64) *RunSpec { return GenShare("C19", seed) }},
-				{Name: "S-SHARE-RACE", Quick: 16, Thorough: 3000, Gen: func(seed uint64) *RunSpec { return GenShareRace("C19", seed, 20) }},
+				{Name: "S-SHARE-RACE", Quick: 24, Thorough: 4000, Gen: func(seed uint64) *RunSpec { return GenShareRace("C19", seed, 12) }},
 			},
-			Rule: "S-SHARE: one Reader (simulated-disk BlockSource, or a file on the simulated filesystem), one Merged or one Stack.Merged() shared by 2-8 reader tasks with seeded programs of scans, seeks and RefsFor, interleaved at every ReadBlock/ReadAt by the seeded scheduler; results must equal those of each program alone on a separate fresh instance. S-SHARE-RACE: the same seeded programs on free-running goroutines in a race-detector build of the unrewritten sources (20 cases per process); any race report or result mismatch is a violation. non-trivial = at least two tasks interleaved (>=3 schedule segments) or a race-build batch; distinct = distinct (schedule, case) hashes",
+			Rule: "S-SHARE: one Reader (simulated-disk BlockSource, or a file on the simulated filesystem), one Merged or one Stack.Merged() shared by 2-8 reader tasks with seeded programs of scans, seeks and RefsFor, interleaved at every ReadBlock/ReadAt by the seeded scheduler; results must equal those of each program alone on a separate fresh instance. S-SHARE-RACE: the same seeded programs on free-running goroutines in a race-detector build of the unrewritten sources (12 cases per process); any race report or result mismatch is a violation. non-trivial = at least two tasks interleaved (>=3 schedule segments) or a race-build batch; distinct = distinct (schedule, case) hashes",
 			Nontrivial: func(r *RunResult) bool { return len(r.Segs) > 2 || r.Probes["race-cases"] > 0 },
 			Assumptions: []string{"race-detector reports are happens-before based: they reproduce with the same seed with overwhelming probability, but that part of a replay is not exact", "the deterministic part interleaves only at the block-read seam; memory-level races are the race detector's job"}}
 	}
@@ -315,7 +315,7 @@ func Plans() map[string]*Plan {
 			Parts: []Part{{Name: "S-CORRUPT", Quick: 250000, Thorough: 30000000, Gen: func(seed uint64) *RunSpec { return GenCorrupt("C18", seed) }}},
 			Rule:  "S-CORRUPT: a valid table (real Writer; 0-60 refs of all kinds, 0-20 log entries, swarm Config incl. small blocks, both hash sizes) hit by 1-8 storage faults (bit flip, byte overwrite, truncation, zeroed aligned range, splice from another offset or table, u24/u16 length-field edits, footer-field edits with the CRC repaired, header copied to footer with CRC repaired, trailing garbage) and, in faulty-source mode, transient short/empty/failed ReadBlock results; workload NewReader + full scans + seeks + RefsFor through the library's ByteBlockSource, through a clamping simulated-disk source, and through NewStack/Merged over a directory holding the damaged table; non-trivial = the damaged bytes differ from the original; distinct = distinct damaged byte strings",
 			Nontrivial: func(r *RunResult) bool { return r.Probes["corrupt-noop"] == 0 && r.Probes["corrupt-unbuildable"] == 0 },
-			Assumptions: []string{"arbitrary byte strings are reached only as mutations of valid tables; there is no coverage guidance", "pure CPU loops are caught by iteration caps and a 120 s per-run watchdog"}}
+			Assumptions: []string{"arbitrary byte strings are reached only as mutations of valid tables; there is no coverage guidance", "pure CPU loops are caught by iteration caps and a 900 s per-run watchdog"}}
 	}
 	return ps
 }
